@@ -44,6 +44,34 @@ def act (ss : Session) (a : JAct) (showPa : Bool := true) : Option (String × Se
   | some st => some (reply { ss with st := st, now := ss.now + 1 } (showPa && st.passAt != ss.st.passAt))
   | none => none
 
+/-- deterministic whole run (no ticker firing): feed every slice, release at once, close -/
+def batchRun (cfg : JCfg) (inputs : List (List Nat)) : List (List Nat) :=
+  let relNow (s : JSt) (t : Nat) : JSt :=
+    match s.pc with
+    | .await _ => (jstep s (.release t)).getD s
+    | _ => s
+  let feed := inputs.foldl (fun (acc : JSt × Nat) xs =>
+      let s1 := (jstep acc.1 (.item acc.2 xs acc.2)).getD acc.1
+      -- a unite `process` can be interrupted twice (pass, then forward)
+      (relNow (relNow s1 acc.2) acc.2, acc.2 + 1)) (jinit cfg 0, 1)
+  let s2 := (jstep feed.1 (.close feed.2)).getD feed.1
+  (relNow s2 feed.2).out
+
+def parseSlices? (s : String) : Option (List (List Nat)) :=
+  if s == "-" then some [] else (s.splitOn ";").mapM (fun t => if t == "e" then some [] else parseList? t)
+
+def showSlices (l : List (List Nat)) : String :=
+  if l.isEmpty then "-" else ";".intercalate (l.map showList)
+
+/-- `jbatch kind ver size nocopy slices` (stateless) -/
+def batchOp (toks : List String) : Option String :=
+  match toks with
+  | ["jbatch", kind, ver, size, nocopy, slices] => do
+    let k ← (if kind == "join" then some JKind.join else if kind == "unite" then some JKind.unite else none)
+    let cfg : JCfg := ⟨k, ← parseNat? size, 0, (← parseNat? nocopy) != 0, ver == "v1"⟩
+    some (showSlices (batchRun cfg (← parseSlices? slices)))
+  | _ => none
+
 def op (ss : Session) (toks : List String) : Option (String × Session) :=
   match toks with
   | ["item", id, xs] => do act ss (.item (← parseNat? id) (← parseList? xs) ss.now)
